@@ -110,7 +110,7 @@ func c15Probe(maxLen int) func(w *mintops.W) {
 
 func c15Specs(quick bool) []*bfs.Spec {
 	if quick {
-		return []*bfs.Spec{{Prop: "C15", Name: "C15-seq-q", Cfg: mintops.Config{Fee: 0}, Init: []string{"fund|8,8,8"}, Menu: c15Menu, Probe: c15Probe(2), Depth: 3}}
+		return []*bfs.Spec{{Prop: "C15", Name: "C15-seq-q", Cfg: mintops.Config{Fee: 0}, Init: []string{"fund|8,8,8"}, Menu: c15Menu, Probe: c15Probe(2), Depth: 4}}
 	}
 	return []*bfs.Spec{
 		{Prop: "C15", Name: "C15-seq-fee0", Cfg: mintops.Config{Fee: 0}, Init: []string{"fund|8,8,8"}, Menu: c15Menu, Probe: c15Probe(3), Depth: 5},
